@@ -82,14 +82,14 @@ func (s *redisSessionStore) Update(ctx context.Context, key string, value *Encry
 	ctx, span := otel.StartSpan(ctx, "RedisSessionStore.Update")
 	defer span.End()
 
-	_, err := s.Read(ctx, key)
-	if err != nil {
-		return err
-	}
-
-	err = metrics.ObserveRedisLatency(metrics.RedisOperationUpdate, func() error {
-		return s.client.Set(ctx, key, value, redis.KeepTTL).Err()
+	// update only if the key still exists, keeping its remaining time-to-live, in a single command:
+	// a read followed by SET KEEPTTL would re-create (without expiry) a session deleted in between.
+	err := metrics.ObserveRedisLatency(metrics.RedisOperationUpdate, func() error {
+		return s.client.SetArgs(ctx, key, value, redis.SetArgs{Mode: "XX", KeepTTL: true}).Err()
 	})
+	if errors.Is(err, redis.Nil) {
+		return fmt.Errorf("%w: %w", ErrNotFound, err)
+	}
 	if err != nil {
 		return err
 	}
